@@ -35,7 +35,7 @@ def check_matching(g, m):
     return None
 
 
-_def_at = propgen.definitional_oracle_at(['match_events', 'note_matching'], 'the pairing is a valid maximum matching of the stated predicate')
+_def_at = propgen.chained(propgen.point_oracle(ID), propgen.definitional_oracle_at(['match_events', 'note_matching'], 'the pairing is a valid maximum matching of the stated predicate'))
 
 
 def oracle_at(unit, case, impl):
